@@ -37,7 +37,7 @@ def rmwt(wt):
     shutil.rmtree(os.path.join(ROOT, "build", "dev-" + tag), ignore_errors=True)
 
 
-def verify(src, name):
+def verify(src, name, store=True):
     wt = mkwt(name)
     env = {"CARGO_TARGET_DIR": wt + "/target", "CARGO_NET_OFFLINE": "true"}
     ran = []
@@ -67,6 +67,8 @@ def verify(src, name):
         ran.append("demo with the patch: %s" % ("fails (as required)" if fails else "still passes"))
         if not fails:
             return False, ran
+        if not store:
+            return True, ran
         dst = os.path.join(SEEDED, name)
         os.makedirs(dst, exist_ok=True)
         for f in ("patch.diff", "demo.rs"):
@@ -175,6 +177,23 @@ def main():
     if a[0] == "run":
         res = run(a[1], a[2:], tier)
         print(json.dumps(res, indent=1))
+        return 0
+    if a[0] == "reconfirm":
+        # re-run the confirmation of every live seed against /repo HEAD (repairs can neutralise a seeded change)
+        names = a[1:] or sorted(n for n in os.listdir(SEEDED) if os.path.isdir(os.path.join(SEEDED, n)))
+        out = {}
+        for n in names:
+            meta = json.load(open(os.path.join(SEEDED, n, "meta.json")))
+            if str(meta.get("status", "")).startswith("retired"):
+                continue
+            if n.startswith("C19"):
+                os.environ["SEED_DEMO_FLAGS"] = "--no-default-features --features libm"
+            else:
+                os.environ.pop("SEED_DEMO_FLAGS", None)
+            ok, ran = verify(os.path.join(SEEDED, n), "rc-" + n, store=False)
+            out[n] = {"ok": ok, "ran": ran}
+            print(n, "still confirmed" if ok else "NOT CONFIRMED: %s" % ran, flush=True)
+        json.dump(out, open(os.path.join(SEEDED, "RECONFIRM.json"), "w"), indent=1)
         return 0
     if a[0] == "refresh":
         names = a[1:] or sorted(n for n in os.listdir(SEEDED) if os.path.isdir(os.path.join(SEEDED, n)))
